@@ -76,7 +76,7 @@ theorem valOfBits_bit : ∀ (l : List Bool) (k : Nat) (h : k < l.length),
       congr 2
       split <;> omega
 
-theorem packBits_length : ∀ (n : Nat) (bits : List Bool), bits.length ≤ n →
+theorem packBits_length_A : ∀ (n : Nat) (bits : List Bool), bits.length ≤ n →
     (packBits bits).length = (bits.length + 7) / 8 := by
   intro n
   induction n with
@@ -139,7 +139,7 @@ theorem readVal_packBits (rest : Bytes) (bits : List Bool) : ∀ (n k : Nat), k 
     rw [List.drop_eq_getElem_cons hk, List.take_succ_cons]
     simp only [valOfBits, b2n]
 
-theorem valOfBits_bitsOf : ∀ (n v : Nat), valOfBits (bitsOf n v) = v % 2 ^ n := by
+theorem valOfBits_bitsOf_A : ∀ (n v : Nat), valOfBits (bitsOf n v) = v % 2 ^ n := by
   intro n
   induction n with
   | zero => intro v; simp [bitsOf, valOfBits, Nat.mod_one]
@@ -154,7 +154,7 @@ theorem valOfBits_bitsOf : ∀ (n v : Nat), valOfBits (bitsOf n v) = v % 2 ^ n :
         simp [this]
     rw [this]
 
-theorem bitsOf_length : ∀ (n v : Nat), (bitsOf n v).length = n := by
+theorem bitsOf_length_A : ∀ (n v : Nat), (bitsOf n v).length = n := by
   intro n
   induction n with
   | zero => intro v; simp [bitsOf]
